@@ -311,6 +311,57 @@ def lazily_forgotten(P, m, reuse):
     return (True, 'services carry %s (fresh from %s when a slot is taken), clients %s; %d look(s) at the mask, each after the client was brought up to date' % (e_s, G, e_c, nreads), s0)
 
 
+def stamp_fields(P):
+    """(service member, counter): the member of the service record that is stamped from a file-level counter which the
+    per-client record is stamped from too (the epochs of the lazy forgetting)."""
+    cli_g = set()
+    for f in P.unit_fns(UNIT):
+        for s in f.stores():
+            ev = s.ev
+            if ev['k'] == 'store' and ev['lhs'].get('k') == 'mem' and ev['lhs'].get('rec') == 'iauth_xquery_client':
+                cli_g |= {x['name'] for x in walk(ev.get('rhs') or {}) if x.get('k') == 'var' and x.get('sc') not in ('local', 'param')}
+    out = set()
+    for f in P.unit_fns(UNIT):
+        for s in f.stores():
+            ev = s.ev
+            if ev['k'] == 'store' and ev['lhs'].get('k') == 'mem' and ev['lhs'].get('rec') == 'iauth_xquery_service':
+                for x in walk(ev.get('rhs') or {}):
+                    if x.get('k') == 'var' and x.get('name') in cli_g:
+                        out.add((ev['lhs']['field'], x['name']))
+    return out
+
+
+def protocol_change_restamps(P, R, rule='C06.MPT.7'):
+    """"A service added by a reload is queried about every client still in flight" - and so is one whose protocol a
+    reload changed: what a client was asked under the old protocol (its bit in the sent mask) says nothing about the
+    new one.  Where slots are stamped (the lazy forgetting of C06.MPT.4), every store of a service's protocol happens on
+    an entry stamped on that very path (a new one), or is accompanied by a re-stamp under a test that the protocol
+    differs from the one on file."""
+    st = stamp_fields(P)
+    if not st:
+        R.note('%s: services carry no stamp; a protocol change is judged by C06.MPT.4\'s eager form' % rule)
+        return
+    fields = {a for a, b in st}
+    n = 0
+    for f in P.unit_fns(UNIT):
+        tstores = [s for s in f.stores() if s.ev['k'] == 'store' and s.ev['lhs'].get('k') == 'mem' and s.ev['lhs'].get('rec') == 'iauth_xquery_service' and s.ev['lhs'].get('field') == 'type']
+        if not tstores:
+            continue
+        stamps = [s for s in f.stores() if s.ev['k'] == 'store' and s.ev['lhs'].get('k') == 'mem' and s.ev['lhs'].get('rec') == 'iauth_xquery_service' and s.ev['lhs'].get('field') in fields]
+        skeys = {s.key for s in stamps}
+        before, _, _, _ = f.forward(False, lambda stt, t: True if t.key in skeys else stt)
+        # a re-stamp guarded by "the protocol on file differs"
+        cond = [s for s in stamps if any(g[1] == '!=' and any(x.get('k') == 'mem' and x.get('field') == 'type' and x.get('rec') == 'iauth_xquery_service' for x in walk(g[0])) for g in f.guards(s.bid))]
+        for t in tstores:
+            sts = before.get(t.key, set())
+            always = bool(sts) and all(sts)
+            guarded = any(t.bid in f.reach([c.bid]) for c in cond)
+            n += 1
+            R.ob(rule, always or guarded, t, 'a service\'s protocol is stored on a freshly stamped entry, or the entry is re-stamped where the protocol differs from the one on file (%s)' % (
+                'fresh on every path' if always else 're-stamped under the test' if guarded else 'an existing entry keeps its stamp: clients in flight are not asked under the new protocol'), key='restamp:%s' % f.name)
+    R.floor(rule, 1, 'stores of a service\'s protocol')
+
+
 def slot_reuse_forgets(P, R, rule='C06.MPT.4'):
     """The per-client masks are indexed by service SLOT, and a slot a removed service leaves is handed to the next new
     service (it has to be: the masks are 32 bits wide).  A client in flight across that reload still carries the old
@@ -349,6 +400,13 @@ def slot_reuse_forgets(P, R, rule='C06.MPT.4'):
                 if t.ev['k'] == 'store' and holds.outer_field(t.ev['lhs']) == 'refs' and t.ev.get('op') in ('++', '+='):
                     if t.bid == s.bid or s.fn.dominates(t.bid, s.bid):
                         return True
+                    # ... or takes it unless the bit is set already (which then came with a reference earlier): the
+                    # reference is counted under a test that this very bit is clear, and the test comes before the set
+                    for e in s.fn.dominating_edges(t.bid):
+                        r = e.rel()
+                        if r and isinstance(r[0], dict) and r[0].get('k') == 'bin' and r[0].get('op') == '&' and holds.outer_field(r[0].get('l')) == m and r[1] == '==' and const_of(r[2]) == 0 \
+                                and (e.src == s.bid or s.fn.dominates(e.src, s.bid)):
+                            return True
             return False
         def dropped_with_ref(m=m):
             ok = True
@@ -1100,6 +1158,7 @@ def run(P, R, tier):
     field_capacity(P, R)
     username_limit(P, R, b)
     shape_gate(P, R, b)
+    protocol_change_restamps(P, R)
     query_callers(P, R, xq, b)
     no_flag_keyed_exit(P, R, b)
     fanout_complete(P, R, b)
